@@ -13,13 +13,21 @@ Generic protections applied to EVERY call (not per function):
 
 Floats travel as JSON numbers (Python's repr round-trips doubles exactly; float32 results are widened
 to the double with the same value)."""
+import importlib
 import json
 import sys
 
 import numpy as np
 
 import pydl
-from pydl import smooth, median, uniq, rebin
+
+# the two import routes users have: the names re-exported by the package (`from pydl import smooth, ...`) and the
+# functions of the defining modules (`from pydl.smooth import smooth`).  Every call names its route; the same call
+# is repeated through the OTHER route and must give the same answer (`route_ok`).
+ROUTES = {
+    'package': {n: getattr(pydl, n) for n in ('smooth', 'median', 'uniq', 'rebin')},
+    'module': {n: getattr(importlib.import_module('pydl.' + n), n) for n in ('smooth', 'median', 'uniq', 'rebin')},
+}
 
 JUNK = 77
 
@@ -59,15 +67,20 @@ def arr_out(r):
     return {'ok': a.tolist(), 'dtype': str(a.dtype), 'shape': list(a.shape), 'is_ndarray': isinstance(r, np.ndarray)}
 
 
-def invoke(c, x, idx=None):
+def invoke(c, x, idx=None, route='package'):
     """one pydl call on the array object x -> (raw result, serialised result)"""
     f = c['f']
+    smooth, median, uniq, rebin = (ROUTES[route][n] for n in ('smooth', 'median', 'uniq', 'rebin'))
     if f == 'smooth':
         r = smooth(x, c['w'], edge_truncate=c['et']) if c['et'] is not None else smooth(x, c['w'])
         return r, arr_out(r)
     if f == 'median':
         r = median(x, even=True) if c['even'] else median(x)
-        return r, {'ok': float(r), 'ndim0': bool(np.ndim(r) == 0)}
+        if np.ndim(r) != 0:
+            o = arr_out(r)
+            o['ndim0'] = False
+            return r, o
+        return r, {'ok': float(r), 'ndim0': True}
     if f == 'median_axis':
         r = median(x, axis=c['axis'])
         return r, arr_out(r)
@@ -103,8 +116,10 @@ def call(c):
         idx, idx_owner = make_array(c['idx'], c.get('idx_dtype', 'i8'), 'c')
     before = owner.tobytes()
     idx_before = idx_owner.tobytes() if idx_owner is not None else None
+    route = c.get('route', 'package')
+    other = 'module' if route == 'package' else 'package'
     try:
-        raw, o = invoke(c, x, idx)
+        raw, o = invoke(c, x, idx, route)
     except Exception as e:  # noqa: BLE001 - the error class is the observation
         raw, o = None, err(e)
     o['input_unchanged'] = bool(owner.tobytes() == before and (idx_owner is None or idx_owner.tobytes() == idx_before))
@@ -117,13 +132,24 @@ def call(c):
         idx2 = np.array(c['idx'], dtype=c.get('idx_dtype', 'i8'))
         idx2.flags.writeable = False
     try:
-        _, o2 = invoke(c, x2, idx2)
+        _, o2 = invoke(c, x2, idx2, route)
     except Exception as e:  # noqa: BLE001
         o2 = err(e)
     keys = ('ok', 'dtype', 'shape', 'err')
     o['readonly_ok'] = same_answer({k: o.get(k) for k in keys}, {k: o2.get(k) for k in keys})
     if not o['readonly_ok']:
         o['readonly_result'] = {k: o2.get(k) for k in ('ok', 'err', 'msg') if k in o2}
+    # the same call through the other import route, on a fresh array with the same values
+    x3 = np.array(c['x'], dtype=dtype)
+    idx3 = np.array(c['idx'], dtype=c.get('idx_dtype', 'i8')) if idx is not None else None
+    try:
+        _, o3 = invoke(c, x3, idx3, other)
+    except Exception as e:  # noqa: BLE001
+        o3 = err(e)
+    o['route'] = route
+    o['route_ok'] = same_answer({k: o.get(k) for k in keys}, {k: o3.get(k) for k in keys})
+    if not o['route_ok']:
+        o['other_route_result'] = {k: o3.get(k) for k in ('ok', 'shape', 'err', 'msg') if k in o3}
     return o
 
 
@@ -132,11 +158,14 @@ def history(c):
     x, owner = make_array(c['x'], c.get('dtype', 'f8'), c.get('layout'))
     before = owner.tobytes()
     steps = []
-    for st in c['steps']:
+    for k, st in enumerate(c['steps']):
+        # the steps of one history alternate between the two import routes
+        route = ('package', 'module')[(k + (c.get('route', 'package') == 'module')) % 2]
         try:
-            raw, o = invoke(st, x)
+            raw, o = invoke(st, x, None, route)
         except Exception as e:  # noqa: BLE001
             raw, o = None, err(e)
+        o['route'] = route
         o['input_unchanged'] = bool(owner.tobytes() == before)
         o['aliases_input'] = bool(isinstance(raw, np.ndarray) and np.shares_memory(raw, owner))
         o['readonly_ok'] = True
